@@ -7,7 +7,7 @@ pub struct RwLock<T: ?Sized> { id: ObjId, data: UnsafeCell<T> }
 unsafe impl<T: ?Sized + Send> Send for RwLock<T> {}
 unsafe impl<T: ?Sized + Send + Sync> Sync for RwLock<T> {}
 impl<T> RwLock<T> {
-    pub fn new(t: T) -> Self { RwLock { id: new_obj(Obj::RwLock { writer: None, readers: 0, waiting_writers: 0 }), data: UnsafeCell::new(t) } }
+    pub fn new(t: T) -> Self { RwLock { id: new_obj(Obj::RwLock { writer: None, readers: 0, waiting_writers: 0, upgradable: None }), data: UnsafeCell::new(t) } }
     pub fn into_inner(self) -> T { self.data.into_inner() }
 }
 impl<T: ?Sized> RwLock<T> {
@@ -65,7 +65,7 @@ impl<T: ?Sized> RwLock<T> {
     }
     /// would `write()` be admitted right now?
     pub fn stub_can_write(&self) -> bool {
-        with_obj(self.id, |o| matches!(o, Obj::RwLock { writer: None, readers: 0, .. })).unwrap_or(true)
+        with_obj(self.id, |o| matches!(o, Obj::RwLock { writer: None, readers: 0, upgradable: None, .. })).unwrap_or(true)
     }
 }
 impl<T: ?Sized> Mutex<T> {
@@ -83,3 +83,85 @@ impl<T: ?Sized> Mutex<T> {
     pub fn get_mut(&mut self) -> &mut T { self.data.get_mut() }
 }
 impl<T> Mutex<T> { pub fn into_inner(self) -> T { self.data.into_inner() } }
+
+// --- upgradable reads ---------------------------------------------------------------------------
+pub struct RwLockUpgradableReadGuard<'a, T: ?Sized> { l: &'a RwLock<T> }
+unsafe impl<T: ?Sized + Sync> Sync for RwLockUpgradableReadGuard<'_, T> {}
+impl<T: ?Sized> RwLock<T> {
+    pub fn upgradable_read(&self) -> RwLockUpgradableReadGuard<'_, T> { point(Op::RwUpgradable(self.id)); RwLockUpgradableReadGuard { l: self } }
+    pub fn is_locked(&self) -> bool { !self.stub_can_write() }
+    pub fn is_locked_exclusive(&self) -> bool { !self.stub_can_read() }
+}
+impl<'a, T: ?Sized> RwLockUpgradableReadGuard<'a, T> {
+    pub fn upgrade(s: Self) -> RwLockWriteGuard<'a, T> {
+        let l = s.l;
+        std::mem::forget(s);
+        point(Op::RwUpgrade(l.id));
+        point(Op::Yield("w-held"));
+        RwLockWriteGuard { l }
+    }
+    pub fn downgrade(s: Self) -> RwLockReadGuard<'a, T> {
+        let l = s.l;
+        std::mem::forget(s);
+        with_obj(l.id, |o| if let Obj::RwLock { upgradable, readers, .. } = o { *upgradable = None; *readers += 1 });
+        RwLockReadGuard { l }
+    }
+}
+impl<T: ?Sized> Deref for RwLockUpgradableReadGuard<'_, T> { type Target = T; fn deref(&self) -> &T { unsafe { &*self.l.data.get() } } }
+impl<T: ?Sized> Drop for RwLockUpgradableReadGuard<'_, T> { fn drop(&mut self) { with_obj(self.l.id, |o| if let Obj::RwLock { upgradable, .. } = o { *upgradable = None }); } }
+impl<'a, T: ?Sized> RwLockWriteGuard<'a, T> {
+    pub fn downgrade(s: Self) -> RwLockReadGuard<'a, T> {
+        let l = s.l;
+        std::mem::forget(s);
+        with_obj(l.id, |o| if let Obj::RwLock { writer, readers, .. } = o { *writer = None; *readers += 1 });
+        RwLockReadGuard { l }
+    }
+}
+// --- the rest of the commonly used surface --------------------------------------------------------
+impl<T: Default> Default for RwLock<T> { fn default() -> Self { RwLock::new(T::default()) } }
+impl<T> From<T> for RwLock<T> { fn from(t: T) -> Self { RwLock::new(t) } }
+impl<T> From<T> for Mutex<T> { fn from(t: T) -> Self { Mutex::new(t) } }
+impl<T: ?Sized> std::fmt::Debug for RwLock<T> { fn fmt(&self, f: &mut std::fmt::Formatter) -> std::fmt::Result { f.write_str("RwLock { .. }") } }
+impl<T: ?Sized> std::fmt::Debug for Mutex<T> { fn fmt(&self, f: &mut std::fmt::Formatter) -> std::fmt::Result { f.write_str("Mutex { .. }") } }
+impl std::fmt::Debug for Condvar { fn fmt(&self, f: &mut std::fmt::Formatter) -> std::fmt::Result { f.write_str("Condvar { .. }") } }
+impl<T: ?Sized> Mutex<T> { pub fn is_locked(&self) -> bool { !self.stub_can_lock() } }
+impl Condvar {
+    /// `wait_while` of parking_lot 0.12: blocks while `condition` holds
+    pub fn wait_while<T: ?Sized, F: FnMut(&mut T) -> bool>(&self, g: &mut MutexGuard<'_, T>, mut condition: F) {
+        while condition(&mut **g) {
+            self.wait(g);
+        }
+    }
+}
+impl<T: ?Sized> RwLock<T> {
+    /// would `upgradable_read()` be admitted right now?
+    pub fn stub_can_upgradable(&self) -> bool {
+        with_obj(self.id, |o| matches!(o, Obj::RwLock { writer: None, upgradable: None, .. })).unwrap_or(true)
+    }
+    /// would `upgrade` complete right now (no plain reader left)?
+    pub fn stub_can_upgrade(&self) -> bool {
+        with_obj(self.id, |o| matches!(o, Obj::RwLock { readers: 0, .. })).unwrap_or(true)
+    }
+    pub fn try_upgradable_read(&self) -> Option<RwLockUpgradableReadGuard<'_, T>> {
+        point(Op::Yield("try-upgradable"));
+        if self.stub_can_upgradable() {
+            with_obj(self.id, |o| if let Obj::RwLock { upgradable, .. } = o { *upgradable = Some(detsched::current_tid().unwrap_or(0)) });
+            Some(RwLockUpgradableReadGuard { l: self })
+        } else {
+            None
+        }
+    }
+}
+impl<'a, T: ?Sized> RwLockUpgradableReadGuard<'a, T> {
+    pub fn try_upgrade(s: Self) -> Result<RwLockWriteGuard<'a, T>, Self> {
+        point(Op::Yield("try-upgrade"));
+        if s.l.stub_can_upgrade() {
+            let l = s.l;
+            std::mem::forget(s);
+            with_obj(l.id, |o| if let Obj::RwLock { upgradable, writer, .. } = o { *upgradable = None; *writer = Some(detsched::current_tid().unwrap_or(0)) });
+            Ok(RwLockWriteGuard { l })
+        } else {
+            Err(s)
+        }
+    }
+}
